@@ -343,6 +343,10 @@ def oracle_C04(tier):
     for d in docs[:n // 5]:
         docs += [d + '\\endinput\n', d + ' \\x \n ', d + '\\x{a}\n']
     docs += ['\\chapter{One}\nSome \\emph{text}.\n\\endinput\n', '\\title{T}\n\\maketitle\n', '\\x ', '\\x\n']
+    # argument lists with textually equal groups (the views walk the list
+    # itself, in its own order)
+    docs += ['\\cmd{a}{a}{b} t', '\\begin{e}{c}{c}{d}x \\y{z}\\end{e}', '\\cmd[a]{b}[a]{c}', '\\foo{\\x}{\\x}{\\y} \\k{}{}{v}',
+             '\\begin{itemize}\\item[q]{q}{r} s\\end{itemize}']
     # commands named like attributes of the node API: navigation must not be
     # confused with a search for such a command (the root has no parent)
     for nm in ('parent', 'expr', 'name', 'args', 'contents', 'children', 'text', 'position', 'string',
